@@ -459,19 +459,33 @@ class AioConnection:
         if hook is not None:
             hook(sess, _phase(node), sql)
         gate = eng.gate
-        if gate.owner is not sess:
+        owned = gate.owner is sess
+        plain_select = (node.k in ('spec', 'union') and not getattr(node, 'locking_read', False)) or node.k in ('begin', 'set', 'noop')
+        if not owned:
             if node.k in _NO_GATE and not sess.in_txn:
                 # COMMIT / ROLLBACK / SET with nothing open: no transaction starts, nothing to serialise
                 return eng.execute_node(sess, node, params)
             cb = eng.on_transaction_start
-            if cb is not None:
+            if cb is not None and not sess.in_txn:
                 await cb(sess)
+            import asyncio
+            if gate.owner is not None and getattr(gate, 'owner_task', None) is asyncio.current_task():
+                raise E.NotSupported('minimysql: a task that holds an open write transaction issued a statement on a second '
+                                     'connection (would wait on itself; lock-level concurrency is not modelled)')
             await gate.acquire(sess)
+            gate.owner_task = asyncio.current_task()
         try:
             return eng.execute_node(sess, node, params)
         finally:
-            if not sess.in_txn:
+            # Transactions are serialised from their first write or locking read to COMMIT/ROLLBACK.  Plain (non-locking)
+            # SELECTs -- in READ ONLY transactions, or before a transaction's first write -- take the gate per statement only:
+            # they never see another transaction's uncommitted writes, and they do not block writers afterwards (InnoDB serves
+            # them from MVCC snapshots; the repo nests streaming selects around write transactions in one task, e.g. scheduler,
+            # canceller and the clean-up loops, which would self-deadlock under a per-transaction gate).
+            hold = sess.in_txn and not sess.read_only and (owned or not plain_select)
+            if not hold and gate.owner is sess:
                 gate.release(sess)
+                gate.owner_task = None
 
     def cursor(self, *cursors):
         cls = cursors[0] if cursors else self._cursorclass
